@@ -204,6 +204,21 @@ def _():
     return (list(SEQS),), {"n_cpu": 3, "compression": 2}
 
 
+@spec("kdtree_ncpu3_other_input", NN + "kdtree", sorted_triplets)
+def _():
+    return ([s[::-1] for s in SEQS] + ["CASSF", "CASSFF", "CAF"],), {"n_cpu": 3, "max_edits": 2}
+
+
+@spec("kdtree_ncpu2_hamming", NN + "kdtree", sorted_triplets)
+def _():
+    return (list(SEQS),), {"n_cpu": 2, "custom_distance": "hamming", "max_edits": 2}
+
+
+@spec("kdtree_ncpu2_small", NN + "kdtree", sorted_triplets)
+def _():
+    return (list(SEQS)[::-1],), {"n_cpu": 2, "max_edits": 1}
+
+
 @spec("kdtree_plain_same_input_as_hamming", NN + "kdtree", sorted_triplets)
 def _():
     return (list(SEQS),), {}
@@ -282,6 +297,18 @@ ST = "pyrepseq.stats:"
 @spec("pc_list", ST + "pc")
 def _():
     return (["a", "b", "a", "c", "a", "b"],), {}
+
+
+@spec("pc_ndarray", ST + "pc")
+def _():
+    import numpy as np
+    return (np.array([4, 7, 4, 9, 4, 7, 1, 5]),), {}
+
+
+@spec("stdpc_ndarray", ST + "stdpc")
+def _():
+    import numpy as np
+    return (np.array(["a", "b", "a", "c", "a", "b", "d", "e"]),), {}
 
 
 @spec("pc_two", ST + "pc")
@@ -514,6 +541,18 @@ def _():
 @spec("hierarchical_default", DI + "hierarchical_clustering")
 def _():
     return (list(SEQS),), {}
+
+
+@spec("hierarchical_weighted_unit", DI + "hierarchical_clustering")
+def _():
+    from pyrepseq.metric import WeightedLevenshtein
+    return (list(SEQS),), {"metric": WeightedLevenshtein()}
+
+
+@spec("hierarchical_weighted_331", DI + "hierarchical_clustering")
+def _():
+    from pyrepseq.metric import WeightedLevenshtein
+    return (list(SEQS),), {"metric": WeightedLevenshtein(insertion_weight=3, deletion_weight=3, substitution_weight=1)}
 
 
 def _many(n, seed=7):
